@@ -12,19 +12,13 @@ RULE = ("complete bounded configuration space (N, B<=N, drop_last, drop_last_bat
 
 
 def bounds(tier):
-    return dict(maxN=6 if tier == "quick" else 9, pairs=6 if tier == "quick" else 22)
+    return dict(maxN=7 if tier == "quick" else 10, pairs=8 if tier == "quick" else 22)
 
 
 def config_sets(pairs, seed=0):
     menu = ic.config_menu_small()
     sets = [()] + [(c,) for c in menu]
-    k = seed % len(menu)
-    rot = menu[k:] + menu[:k]
-    sub = rot[:pairs] if pairs < len(menu) else menu
-    # spread the pair members over the menu (every other entry) so all interval kinds occur
-    if pairs < len(menu):
-        step = max(1, len(menu) // pairs)
-        sub = [rot[(i * step) % len(menu)] for i in range(pairs)]
+    sub = ic.pick(menu, pairs, seed)
     sets += [(a, b) for a in sub for b in sub]
     return sets
 
